@@ -5,6 +5,7 @@ CONSTANTS
   MaxCount = 3
   BadBytes = "BADBYTES"
   FailModes = {FALSE, TRUE}
+  StrictModes = {FALSE, TRUE}
 CONSTRAINT Bounded
 VIEW View
 INVARIANT RegIsBalance
